@@ -309,6 +309,21 @@ func main() {
 	addm(tuple(), tuple(one), tuple(onef), tuple(one, two), tuple(one, two, aI(3)), tuple(one, aStr("a")), tuple(aStr("a"), one), tuple(nan),
 		tuple(tuple(one)), tuple(aInt(pow2(64))), tuple(aFloat(math.Ldexp(1, 64))), tuple(aI(0)), tuple(aFloat(math.Copysign(0, -1))),
 		tuple(one, onef), tuple(two), tuple(one, aI(3)), tuple(aStr("hello world!"), aBool(true)), tuple(list(one)))
+	// values sharing storage with other pool values: step-1 slices of a tuple are sub-slices of
+	// the same backing array (same first element address, different length)
+	{
+		base := tuple(one, two, aI(3))
+		bt := base.v.(starlark.Tuple)
+		sl := func(lo, hi int) mk {
+			return mk{bt.Slice(lo, hi, 1), D{T: "tuple", E: base.d.E[lo:hi]}, 2}
+		}
+		mixed := tuple(one, aStr("a"), nan)
+		mt := mixed.v.(starlark.Tuple)
+		msl := func(lo, hi int) mk {
+			return mk{mt.Slice(lo, hi, 1), D{T: "tuple", E: mixed.d.E[lo:hi]}, 2}
+		}
+		addm(base, sl(0, 1), sl(0, 2), sl(0, 3), sl(1, 3), sl(2, 3), mixed, msl(0, 1), msl(0, 2), msl(0, 3), msl(2, 3))
+	}
 	addm(list(), list(one), list(onef), list(one, two), list(nan), list(aStr("a")), list(list(one)), list(two), list(one, two, aI(3)), list(tuple(one)),
 		list(one, aStr("a")), list(aBool(false)))
 	for _, k := range []int{8, 9, 10, 11} { // depth k+1: 9, 10, 11, 12
